@@ -7,6 +7,7 @@ use crate::{
 };
 
 const MAX_INCLUDE_DEPTH: usize = 32;
+const MAX_BRACE_DEPTH: usize = 100;
 
 pub(crate) fn parse_story_with_includes<F>(
     source: &str,
@@ -42,6 +43,29 @@ where
     } else {
         source
     };
+
+    // The parser and the emitter recurse on nested braces, and every level of
+    // nesting becomes several levels of nested JSON: refuse what would overflow
+    // the stack here or could not be loaded by the runtime afterwards.
+    let mut brace_depth = 0usize;
+    for (index, line) in source.lines().enumerate() {
+        for ch in line.chars() {
+            match ch {
+                '{' => {
+                    brace_depth += 1;
+                    if brace_depth > MAX_BRACE_DEPTH {
+                        return Err(CompilerError::invalid_source(format!(
+                            "braces nested more than {MAX_BRACE_DEPTH} deep"
+                        ))
+                        .with_line(index + 1)
+                        .with_file(source_name));
+                    }
+                }
+                '}' => brace_depth = brace_depth.saturating_sub(1),
+                _ => {}
+            }
+        }
+    }
 
     let mut segments = Vec::new();
     let mut current_lines = Vec::new();
